@@ -66,36 +66,36 @@ def expectedChildren (r : Int) : Nat :=
 def siblingsFollow (cell stride : Nat) (k : Nat) (rest : List Nat) : Bool :=
   (List.range (k - 1)).all fun j => rest[j]? == some (cell + (j + 1) * stride)
 
+/-- the `has_all_siblings` decision for the cell at position i (`rest` = the cells after it) -/
+def hasAllSiblings (cell : Nat) (r : Int) (rest : List Nat) : PyM Bool :=
+  let k := expectedChildren r
+  if k ≤ rest.length + 1 then
+    (isFirstChild cell (some r)).bind fun first =>
+      if first then (getStride r).bind fun stride => .ok (siblingsFollow cell stride k rest)
+      else .ok false
+  else .ok false
+
 /-- one `while i < len(current_cells)` pass; returns the new list and the `changed` flag -/
 def scanPass : List Nat → PyM (List Nat × Bool)
   | [] => .ok ([], false)
-  | cell :: rest => do
+  | cell :: rest =>
     let r := getResolution cell
     if r < 0 then
-      let (out, ch) ← scanPass rest
-      return (cell :: out, ch)
-    let k := expectedChildren r
-    let hasAll ←
-      (if k ≤ rest.length + 1 then do
-          let first ← isFirstChild cell (some r)
-          if first then do
-            let stride ← getStride r
-            pure (siblingsFollow cell stride k rest)
-          else pure false
-        else pure false : PyM Bool)
-    if hasAll then
-      let parent ← cellToParent cell none
-      let (out, _) ← scanPass (rest.drop (k - 1))
-      return (parent :: out, true)
+      (scanPass rest).bind fun (out, ch) => .ok (cell :: out, ch)
     else
-      let (out, ch) ← scanPass rest
-      return (cell :: out, ch)
+      (hasAllSiblings cell r rest).bind fun hasAll =>
+        if hasAll then
+          (cellToParent cell none).bind fun parent =>
+            (scanPass (rest.drop (expectedChildren r - 1))).bind fun (out, _) => .ok (parent :: out, true)
+        else
+          (scanPass rest).bind fun (out, ch) => .ok (cell :: out, ch)
 termination_by l => l.length
 decreasing_by all_goals (simp only [List.length_cons, List.length_drop]; omega)
 
-/-- `while changed:`; the fuel is the list length + 1 (each changing pass shortens the list) -/
+/-- `while changed:`; the fuel is the list length + 1 (each changing pass shortens the list, so the fuel never runs
+    out — `compact_total` in Props/C08; running out is reported as an error, not as a value) -/
 def compactLoop : Nat → List Nat → PyM (List Nat)
-  | 0, cur => .ok cur
+  | 0, _ => .error .other
   | fuel + 1, cur => do
     let (out, changed) ← scanPass cur
     if changed then compactLoop fuel out else return out
